@@ -98,6 +98,7 @@ STMTS = [
     ("print *, 'Value of i:', i, 'and baz(1):', bar(y)", ["bar"]), ("print *, \"it's\", 'chk(x)', foo_text", []),
     ("x = bar(y); call foo(x)", ["bar", "foo"]),
     ("call foo(x) ; call foo(y)", ["foo"]),
+    ("line(1:3) = 'abc'", []), ("word(2:2) = line(i:i)", []), ("names(2)(1:4) = word(1:4)", []), ("if (line(1:1) == 'a') call foo(x)", ["foo"]),
     ("x = buf(3)", []), ("Buf(2) = x", []), ("x = BUF(pick(y)) + Arr(1)", ["pick"]), ("call foo(buf(i))", ["foo"]),
 ]
 # the reader splits `;`-separated statements: emulate by expanding them here
@@ -115,7 +116,8 @@ def _expand(stmts):
 
 def _caller(stmt_lines, pre=(), post=()):
     # `Buf`: a dummy array argument spelled in mixed case (names are case-insensitive: its elements are never calls)
-    return ["subroutine caller(obj, Buf)", "use procs", "type(tt) :: obj", "integer :: BUF(10)", "integer :: x, y, i, arr(10)", "integer, allocatable :: arr2(:)"] + \
+    return ["subroutine caller(obj, Buf)", "use procs", "type(tt) :: obj", "integer :: BUF(10)", "integer :: x, y, i, arr(10)", "integer, allocatable :: arr2(:)",
+            "character line*(80), word*8, names(4)*(16)"] + \
         list(pre) + list(stmt_lines) + list(post) + ["end subroutine caller"]
 
 
@@ -183,8 +185,8 @@ _calls_ob("call-and-function", 0, 13)
 _calls_ob("control-headers", 11, 23)
 _calls_ob("io-literals-format-goto", 22, 32)
 _calls_ob("bound-alloc-multi", 30, 39)
-_calls_ob("several-literals", 36, len(STMTS) - 4)
-_calls_ob("array-elements-any-letter-case", len(STMTS) - 6, len(STMTS))
+_calls_ob("several-literals", 36, len(STMTS) - 8)
+_calls_ob("array-elements-any-letter-case", len(STMTS) - 10, len(STMTS))
 
 
 # ---------------------------------------------------------------------------------------
